@@ -5,7 +5,7 @@ from harness import common as C
 from harness import zoo as Z
 from props import rotcase
 
-ANCHORS = ["T3", "T5eof", "T5rot", "T5flag"]
+ANCHORS = ["T3", "T5eof", "T5rot", "T5flag", "T9text"]
 MODELS = ["RotCase"]
 RULE = ("base models real/complex/Hilbert EOF and CPCCA family (alpha grid, PCA on/off) x n_modes 2..k x power 1..4 x well separated and nearly "
         "equal variances; in a third of the cases the rotator object had rotated another model and been queried before (call history); rotation-model correspondence on EOFRotator/ComplexEOFRotator; non-trivial: k >= 2 and the rotation matrix differs from the "
